@@ -41,9 +41,9 @@ def explorations(tier):
                    [{"n": 3, "edges": e, "output": [0, 1, 2], "W": 1, "sched": "random"} for e in planh.plan_configs(3)],
                    {"preempt": 0}))
         ex.append(("api hubs", PLAN, hub_cfgs([1, 2]), {"preempt": 1, "random": 2}))
-        ex.append(("api plans n=3 with chains of two surviving literals, W=1 every pop order / W=2 b<=1", PLAN,
+        ex.append(("api plans n=3 with chains of two surviving literals / literals wired downstream-first, W=1 every pop order / W=2 b<=1", PLAN,
                    [{"n": 3, "edges": e, "output": [0, 1, 2], "W": w, "sched": sc}
-                    for e in planh.plan_configs(3, kinds=("p", "lla")) if any(k[2] == "lla" for k in e) for w, sc in ((1, "random"), (2, "default"))],
+                    for e in planh.plan_configs(3, kinds=("p", "lla", "lr")) if any(k[2] in ("lla", "lr") for k in e) for w, sc in ((1, "random"), (2, "default"))],
                    {"preempt": 1}))
         # "finished executing SUCCESSFULLY": failing calls with an error budget that is not exhausted
         from .c06 import api_fail_cfgs, engine_fail_cfgs
@@ -74,9 +74,9 @@ def explorations(tier):
                     for e in planh.plan_configs(4, kinds=("p", "d", "pd", "l"))],
                    {"preempt": 0}))
         ex.append(("api hubs", PLAN, hub_cfgs([1, 2, 3]), {"preempt": 2, "random": 2}))
-        ex.append(("api plans n=3 with chains of two surviving literals, W=1 every pop order / W=2 b<=2", PLAN,
+        ex.append(("api plans n=3 with chains of two surviving literals / literals wired downstream-first, W=1 every pop order / W=2 b<=2", PLAN,
                    [{"n": 3, "edges": e, "output": [0, 1, 2], "W": w, "sched": sc}
-                    for e in planh.plan_configs(3, kinds=("p", "d", "lla")) if any(k[2] == "lla" for k in e) for w, sc in ((1, "random"), (2, "default"), (2, "random"))],
+                    for e in planh.plan_configs(3, kinds=("p", "d", "lla", "lr")) if any(k[2] in ("lla", "lr") for k in e) for w, sc in ((1, "random"), (2, "default"), (2, "random"))],
                    {"preempt": 2, "random": 2}))
         from .c06 import api_fail_cfgs, engine_fail_cfgs
         ex.append(("engine G3 x fault patterns x max_errors {1,2,None}, W=1..3, sync b<=2", ENGINE,
